@@ -17,8 +17,9 @@ Proof. exact run_inv. Qed.
 Theorem C14_size_bounded : forall c ops, cfg_ok c -> (length (all (run c ops)) <= max_txs c)%nat.
 Proof. exact size_bounded. Qed.
 
+(* per sender: at most the configured number of transactions (the nonce heap lists exactly the stored nonces, once each) *)
 Theorem C14_per_sender_bounded : forall c ops a L, cfg_ok c -> afind a (accts (run c ops)) = Some L ->
-  (length (nonces L) <= max_per c)%nat /\ (length (txs L) >= 0)%nat.
+  (length (nonces L) <= max_per c)%nat /\ (forall n, In n (nonces L) <-> afind n (txs L) <> None) /\ NoDup (nonces L).
 Proof. exact per_sender_bounded. Qed.
 
 Theorem C14_one_tx_per_sender_nonce : forall c ops t1 t2, cfg_ok c ->
